@@ -25,6 +25,8 @@ struct Exp {
   uint32_t reply_serial = 0;
   std::vector<Value> body;
   bool any_body = false;       // body not predicted (e.g. error message text)
+  bool any_errname = false;    // any error name accepted
+  bool optional = false;       // [U] the frame may or may not appear (at most once)
   bool full = false;           // compare the whole frame with `whole` (forwarded client messages): type, flags, serial, all fields as a set, body
   Msg whole;
   std::string show() const;
@@ -52,8 +54,19 @@ struct MConn {
   std::vector<MatchRule> rules;          // match rules currently held (multiset, insertion order)
 };
 
+struct PendingReply { int caller, callee; uint32_t serial; long t_added_ms; };
+
 class BusModel {
  public:
+  std::vector<PendingReply> pending;                  // [M] reply slots: (caller, callee, serial)
+  int max_replies = 1 << 30;                          // max_replies_per_connection
+  long reply_timeout_ms = -1;                         // -1: never
+  long now_ms = 0;                                    // virtual time
+  bool replies_must_be_requested = false;             // policy admits only requested replies (system bus default)
+  // advance virtual time: expired slots yield NoReply errors to their callers  [M reply_timeout]
+  void advance(long ms, Out& out);
+  int pending_of(int caller) const;
+  std::string fingerprint() const;                    // canonical text of the whole state (for de-duplicating candidate states)
   std::vector<MConn> conns;
   std::map<std::string, std::vector<NameOwner>> q;   // well-known name -> owner queue (head = primary)
   int max_names = 1 << 30;                             // max_names_per_connection
@@ -76,6 +89,14 @@ class BusModel {
   // A signal originated by the bus itself, delivered by match rules (dest == "") or unicast.
   void bus_signal(const std::string& member, const std::string& dest, const std::vector<Value>& body, Out& out);
   MatchCtx ctx_for(int sender_conn, int addressed) const;
+  // Routing of a message written by registered client c that is not addressed to the bus driver.
+  // Appends expectations: the addressed recipient's copy, eavesdroppers'/match-rule recipients' copies, and for an
+  // undeliverable method call exactly one error to the sender.  [S Message Bus Message Routing]
+  void route(int c, const Msg& m, Out& out);
+  // [U] Eavesdropping is optional behaviour ("the bus may..."): connections holding an eavesdrop='true' rule may
+  // additionally see (a) a call another client addressed to the bus driver and (b) unicast frames the bus itself
+  // originates for other clients (replies, NameAcquired/NameLost).  Adds those as *optional* expectations.
+  void add_optional_eavesdrop(Out& out, int caller, const Msg* driver_call) const;
   // queries
   int primary(const std::string& name) const;            // -1 if none (well-known or unique names)
   std::vector<std::string> queued_owners(const std::string& name) const;
